@@ -35,7 +35,7 @@ def lists(rng, tier):
     def nest(d):
         if d == 0: return rng.choice(["1", "a", "nil", '"s"'])
         return "(" + " ".join(nest(d - 1) for _ in range(rng.randint(1, 3))) + (" . " + nest(0) if rng.random() < 0.2 else "") + ")"
-    for _ in range(150 if tier == "quick" else 1500):
+    for _ in range(500 if tier == "quick" else 6000):
         out.append(nest(rng.randint(1, 4)))
     for _ in range(20 if tier == "quick" else 200):
         n = rng.randint(5, 200)
@@ -81,7 +81,7 @@ def generate(tier, seed):
         reqs.append("(seq-reduce '+ '(1 2 3 4) 0)")
     # assoc / alist-get / plist-get
     keys = ["a", "b", "c", "1", '"s"', ":k", "(1 2)", "nil", "2.5"]
-    for _ in range(400 if tier == "quick" else 6000):
+    for _ in range(1500 if tier == "quick" else 25000):
         n = rng.randint(0, 5)
         items = []
         for _ in range(n):
